@@ -329,9 +329,10 @@ theorem C05_toMarrow_ok_exact (ext : Ext) (fields : List Field) (rows : List SVa
   exact ⟨_, h4 i hi⟩
 
 /-- **undefined ⇒ rejected (`to_marrow`).**  One record without a documented value anywhere in the batch makes the
-whole call fail: no array is returned.  Needs only the hypotheses of R3' (`Props.C01.runRows_interp'`; no `Safe`). -/
+whole call fail: no array is returned.  Needs only the hypotheses of R3' (`Props.C01.runRows_interp'`; no `Safe`); the
+schema predicate is the weak `coveredWF` (Lemmas/C01NewShape.lean): also dictionaries whose value builder refuses strings. -/
 theorem C05_toMarrow_undefined_rejected (ext : Ext) (fields : List Field) (rows : List SVal)
-    (hcov : fields.all Build.coveredF = true)
+    (hcov : fields.all Build.coveredWF = true)
     (hraw : ∀ x ∈ rows, Build.structStreamsAlternate x = true)
     (hnar : (∀ x ∈ rows, Build.noRaw x = true) ∨ Build.narrowRoot fields = true)
     (hu : ∃ (i : Nat) (hi : i < rows.length) (e : Fail), interpRow ext fields rows[i] = .error e) :
@@ -522,6 +523,42 @@ theorem read_mustFail (t : Target) (a : Arr) (i : Nat) (lv : LVal) (why : String
     (hn : new Fixes.all a = .ok ()) (hp : physical a = true) (hu : utf8Ok lv = true)
     (hk : noKnown t a lv = true) : ∃ e, readAs Fixes.all t a i = .error e :=
   isOk_false_iff.1 (read_rej t a i lv _ h hn hp hu hk hc)
+
+/-- **No silent cells** (C02 + C05, reader side).  For EVERY target, array and slot with a defined Arrow reading, under
+the hypotheses of `read_typed_decode`, outside the two known findings (`noKnown`) and where no field name repeats
+(`naCell t a = false`: every Rust type, every view whose struct columns have distinct child names): the typed read is
+DECIDED by the value-level specification — either `cast` demands a value and the read returns exactly it, or `cast`
+says the read must fail (value not representable, codec refusal, pair not offered by the reader) and it fails. -/
+theorem read_typed_total (t : Target) (a : Arr) (i : Nat) (lv : LVal)
+    (h : decodeAt a i = .ok lv) (hn : new Fixes.all a = .ok ()) (hp : physical a = true) (hu : utf8Ok lv = true)
+    (hk : noKnown t a lv = true) (hna : naCell t a = false) :
+    (∃ d, Read.cast t a lv = must d ∧ readAs Fixes.all t a i = .ok d) ∨
+    (∃ e e', Read.cast t a lv = .error e ∧ readAs Fixes.all t a i = .error e') := by
+  rcases Props.C02.cast_must_or_mustFail t a lv hna with ⟨d, hc⟩ | ⟨e, hc⟩
+  · exact .inl ⟨d, hc, Props.C02.read_typed_decode t a i lv d h hn hp hu hc⟩
+  · obtain ⟨e', he'⟩ := isOk_false_iff.1 (read_rej t a i lv e h hn hp hu hk hc)
+    exact .inr ⟨e, e', hc, he'⟩
+
+/-- non-vacuity: a Date32 column read as `String` (first disjunct) and as `&str` (second disjunct) -/
+example : (∃ d, Read.cast .string (.prim .date32 none [19000]) (.int 19000) = must d ∧
+      readAs Fixes.all .string (.prim .date32 none [19000]) 0 = .ok d) ∧
+    (∃ e e', Read.cast .str (.prim .date32 none [19000]) (.int 19000) = .error e ∧
+      readAs Fixes.all .str (.prim .date32 none [19000]) 0 = .error e') := by
+  have h1 := read_typed_total .string (.prim .date32 none [19000]) 0 (.int 19000) (by decide) (by decide) (by decide) (by decide)
+    (by decide) (by decide)
+  have h2 := read_typed_total .str (.prim .date32 none [19000]) 0 (.int 19000) (by decide) (by decide) (by decide) (by decide)
+    (by decide) (by decide)
+  have hm1 : Read.cast .string (.prim .date32 none [19000]) (.int 19000) = must (.str .owned (Read.strBytes "2022-01-08")) := by
+    decide +kernel
+  have hm2 : Read.cast .str (.prim .date32 none [19000]) (.int 19000) = mustFail "unsupported (target, column) pair" := by
+    decide +kernel
+  refine ⟨?_, ?_⟩
+  · rcases h1 with h | ⟨e, _, hc, _⟩
+    · exact h
+    · rw [hm1] at hc; simp [must] at hc
+  · rcases h2 with ⟨d, hc, _⟩ | h
+    · rw [hm2] at hc; simp [mustFail, fail, must] at hc
+    · exact h
 
 /-- the same for any error claim, with the materialising oracle `Spec.decode` -/
 theorem read_mustFail_spec (t : Target) (a : Arr) (i : Nat) (lv : LVal) (e0 : Fail)
